@@ -382,7 +382,7 @@ impl Duration {
     /// Returns the truncated nanoseconds in a signed 64 bit integer, if the duration fits.
     pub fn try_truncated_nanoseconds(&self) -> Result<i64, HifitimeError> {
         // If it fits, we know that the nanoseconds also fit. abs() will fail if the centuries are min'ed out.
-        if self.centuries == i16::MIN || self.centuries.abs() >= 3 {
+        if self.centuries >= 3 || self.centuries < -3 {
             Err(HifitimeError::Duration {
                 source: DurationError::Underflow,
             })
@@ -403,11 +403,14 @@ impl Duration {
                 }),
             }
         } else {
-            // Centuries negative by a decent amount
-            Ok(
-                i64::from(self.centuries) * NANOSECONDS_PER_CENTURY as i64
-                    + self.nanoseconds as i64,
+            // Centuries negative by a decent amount: -3 centuries and enough nanoseconds still fit in an i64.
+            i64::try_from(
+                i128::from(self.centuries) * i128::from(NANOSECONDS_PER_CENTURY)
+                    + i128::from(self.nanoseconds),
             )
+            .map_err(|_| HifitimeError::Duration {
+                source: DurationError::Underflow,
+            })
         }
     }
 
